@@ -286,7 +286,10 @@ func (s *Server) receiveLoop(ctx context.Context) {
 
 		// Parse Ethernet header
 		dstMAC := net.HardwareAddr(buf[0:6])
-		srcMAC := net.HardwareAddr(buf[6:12])
+		// Copy the source MAC: handlers keep it (Session.ClientMAC) and buf is
+		// overwritten by the next frame.
+		srcMAC := make(net.HardwareAddr, 6)
+		copy(srcMAC, buf[6:12])
 		etherType := binary.BigEndian.Uint16(buf[12:14])
 
 		// Check if it's for us (broadcast or our MAC)
